@@ -54,6 +54,7 @@ Violation keys:  c04:<kind>:<dialect>:<variant>.<how>.<trigger>
 import itertools
 import logging
 import random
+import time
 
 from bounded import harness  # noqa: F401  (puts /repo on sys.path)
 from bounded import corpus
@@ -387,15 +388,23 @@ _BASE_TREE = sqlglot.parse_one("SELECT a FROM t")
 COMMENT_POSITIONS = ("select", "column", "table", "all")
 
 
+_COMMENT_TREES = {}
+
+
 def _comment_tree(position, v):
-    tree = _BASE_TREE.copy()
-    nodes = {"select": tree, "column": tree.find(exp.Column), "table": tree.find(exp.Table)}
-    for name, node in nodes.items():
-        if position in (name, "all"):
-            if name == "column":
-                node.add_comments([v])  # the documented API
-            else:
-                node.comments = [v]
+    """the tree with comment text v at `position`.  One private tree per position is reused: only the comment lists
+    are rewritten (Expr.sql copies the tree before generating, so generation never sees a shared object)."""
+    if position not in _COMMENT_TREES:
+        tree = _BASE_TREE.copy()
+        nodes = {"select": tree, "column": tree.find(exp.Column), "table": tree.find(exp.Table)}
+        _COMMENT_TREES[position] = (tree, [n for name, n in nodes.items() if position in (name, "all")], nodes["column"])
+    tree, targets, column = _COMMENT_TREES[position]
+    for node in targets:
+        node.comments = None
+        if node is column:
+            node.add_comments([v])  # the documented API
+        else:
+            node.comments = [v]
     return tree
 
 
@@ -577,8 +586,8 @@ def variant_name(kind, variant, pretty_only):
 
 # tier -> parameters (maximal lengths).
 #   str_all : full alphabet, every literal kind x pretty x (tokens, parse), every identifier variant
-#   str_lite: full alphabet, plain literal x pretty x (tokens, parse); national/raw/byte tokens (pretty=False);
-#             identifiers quoted + identify
+#   str_lite: full alphabet, plain literal x pretty x (tokens, parse); byte literal tokens (pretty=False) where the
+#             dialect has delimited byte strings (BYTE_START); quoted identifier
 #   str_min : full alphabet, plain literal tokens (pretty=False) + quoted identifier
 #   str_core: core alphabet, as str_all
 #   com_each: full alphabet, each comment position and all-at-once, pretty False/True
@@ -697,8 +706,10 @@ def _do_strings(acc, d, v, mode):
         plan = [(lk, (False, True), ("tokens", "parse")) for lk in STRING_KINDS]
         ivs = IDENT_VARIANTS
     elif mode == "lite":
-        plan = [("plain", (False, True), ("tokens", "parse"))] + [(lk, (False,), ("tokens",)) for lk in STRING_KINDS[1:]]
-        ivs = ("quoted", "identify")
+        plan = [("plain", (False, True), ("tokens", "parse"))]
+        if _dialect(d).BYTE_START:  # bytestring_sql has its own escaping path only for a delimited byte string
+            plan.append(("byte", (False,), ("tokens",)))
+        ivs = ("quoted",)
     elif mode == "min":
         plan = [("plain", (False,), ("tokens",))]
         ivs = ("quoted",)
@@ -821,6 +832,7 @@ def _work(task):
     phase, d, k, n, tier = task
     logging.getLogger("sqlglot").setLevel(logging.ERROR)
     acc = _Acc()
+    t0 = time.process_time()
     inputs = _inputs(phase, d, tier)
     do = {"str": _do_strings, "com": _do_comments, "bld": _do_builder}[phase]
     for idx in range(k, len(inputs), n):
@@ -832,6 +844,7 @@ def _work(task):
     return {
         "evals": acc.evals, "by_func": acc.by_func, "viol": acc.viol, "implied": acc.implied,
         "nontrivial": acc.nontrivial, "inputs": acc.inputs, "na": sorted(acc.na), "phase": phase, "dialect": d,
+        "cpu": time.process_time() - t0,
     }
 
 
@@ -849,7 +862,9 @@ def run(tier, seed):
 
     evals, nontrivial, inputs = 0, 0, 0
     by_func, viol, implied, na, per_phase = {}, {}, {}, set(), {}
+    cpu = {}
     for r in results:
+        cpu[r["phase"]] = cpu.get(r["phase"], 0.0) + r["cpu"]
         evals += r["evals"]
         nontrivial += r["nontrivial"]
         inputs += r["inputs"]
@@ -885,7 +900,7 @@ def run(tier, seed):
         f"per dialect ({len(corpus.dialects())} incl. base), all strings of length <= L over the dialect's mechanically "
         f"derived alphabets. strings/identifiers: L<={p['str_all']} full alphabet and L<={p['str_core']} core alphabet with "
         f"4 literal kinds x pretty x (tokens, parse) and 3 identifier variants; L<={p['str_lite']} full alphabet with plain "
-        f"literal x pretty x (tokens, parse), national/raw/byte tokens, identifiers quoted+identify; L<={p['str_min']} full "
+        f"literal x pretty x (tokens, parse), byte literal tokens where BYTE_START, quoted identifier; L<={p['str_min']} full "
         f"alphabet with plain literal tokens + quoted identifier. comments: L<={p['com_each']} full alphabet at each of "
         f"select/column/table and all three, pretty False/True; L<={p['com_full']} full alphabet all three at once, "
         f"pretty=False; L<={p['com_core']} comment-marker alphabet all three at once, pretty False/True. builder (plain and "
@@ -908,6 +923,7 @@ def run(tier, seed):
         "implied_failures": dict(sorted(implied_summary.items())),
         "contract_evaluations": by_func,
         "evaluations_per_phase": per_phase,
+        "worker_cpu_s_per_phase": {k: round(v, 1) for k, v in cpu.items()},
         "not_applicable": sorted(na),
     }
 
